@@ -875,7 +875,7 @@ def matrix_laws(run, cands, Ms):
         for law, X, Y, Zb, what in checks:
             XY = X @ Y
             badm = (XY > 0.5) & ~Zb & valid
-            ntrip = int(np.rint(XY[badm]).sum()) if badm.any() else 0
+            ntrip = int(np.rint(XY[badm]).astype(np.int64).sum()) if badm.any() else 0
             run.count(f"{w.name}:bad_triples:{law}", ntrip)
             if ntrip:
                 fam_seen = {}
